@@ -21,7 +21,7 @@ for f in sorted(glob.glob(os.path.join(ROOT, 'evidence', 'C*.json'))):
 def _load(n):
     p_ = os.path.join(ROOT, 'seeded', n)
     return json.load(open(p_)) if os.path.exists(p_) else {}
-first = dict(_load('RESULTS_firstpass.json')); first.update(_load('RESULTS_r3_firstpass.json'))
+first = dict(_load('RESULTS_firstpass.json')); first.update(_load('RESULTS_r3_firstpass.json')); first.update(_load('RESULTS_r4_firstpass.json'))
 final = dict(_load('RESULTS.json')); final.update(_load('RESULTS_confirm.json'))
 keys = sorted(set(first) | set(final))
 if keys:
